@@ -1,0 +1,58 @@
+//go:build verif
+
+package influxql
+
+// C09: constant folding against the evaluator. For every operator and every
+// pair of literal operand kinds, a folded result is a literal whose value is
+// exactly what evalBinaryExpr (integer division as float division) computes
+// for the unfolded node; an unfolded result keeps operator and operands.
+
+//@ func (*ValuerEval).Eval
+//@   props C09
+//@   ensures istype(expr, *IntegerLiteral) ==> result == box(expr.(*IntegerLiteral).Val)
+//@   ensures istype(expr, *UnsignedLiteral) ==> result == box(expr.(*UnsignedLiteral).Val)
+//@   ensures istype(expr, *NumberLiteral) ==> result == box(expr.(*NumberLiteral).Val)
+//@   ensures istype(expr, *BooleanLiteral) ==> result == box(expr.(*BooleanLiteral).Val)
+//@   ensures istype(expr, *StringLiteral) ==> result == box(expr.(*StringLiteral).Val)
+
+// Well-typed operand pairs per the statement: booleans with booleans
+// (AND OR = !=), numbers with numbers (arithmetic, bitwise, ordering, equality),
+// strings with strings (= !=).
+
+//@ func reduceBinaryExprBooleanLHS
+//@   props C09
+//@   requires lhs != nil && rhs != nil
+//@   entrylet ev = call("(*ValuerEval).evalBinaryExpr", mkobj(ValuerEval, IntegerFloatDivision, true), mkobj(BinaryExpr, Op, op, LHS, lhs, RHS, rhs))
+//@   ensures !istype(result, *BinaryExpr) && spec_isBoolLit(rhs) ==> spec_litval(result) == ev
+//@   ensures istype(result, *BinaryExpr) ==> result.(*BinaryExpr).Op == op
+
+//@ func reduceBinaryExprIntegerLHS
+//@   props C09
+//@   requires lhs != nil && rhs != nil
+//@   entrylet ev = call("(*ValuerEval).evalBinaryExpr", mkobj(ValuerEval, IntegerFloatDivision, true), mkobj(BinaryExpr, Op, op, LHS, lhs, RHS, rhs))
+//@   ensures !istype(result, *BinaryExpr) && spec_isNumLit(rhs) ==> spec_litval(result) == ev
+//@   ensures istype(result, *BinaryExpr) ==> result.(*BinaryExpr).Op == op
+
+//@ func reduceBinaryExprUnsignedLHS
+//@   props C09
+//@   requires lhs != nil && rhs != nil
+//@   entrylet ev = call("(*ValuerEval).evalBinaryExpr", mkobj(ValuerEval, IntegerFloatDivision, true), mkobj(BinaryExpr, Op, op, LHS, lhs, RHS, rhs))
+//@   ensures !istype(result, *BinaryExpr) && spec_isNumLit(rhs) ==> spec_litval(result) == ev
+//@   ensures istype(result, *BinaryExpr) ==> result.(*BinaryExpr).Op == op
+
+//@ func reduceBinaryExprNumberLHS
+//@   props C09
+//@   requires lhs != nil && rhs != nil
+//@   entrylet ev = call("(*ValuerEval).evalBinaryExpr", mkobj(ValuerEval, IntegerFloatDivision, true), mkobj(BinaryExpr, Op, op, LHS, lhs, RHS, rhs))
+//@   ensures !istype(result, *BinaryExpr) && spec_isNumLit(rhs) ==> spec_litval(result) == ev
+//@   ensures istype(result, *BinaryExpr) ==> result.(*BinaryExpr).Op == op
+
+// Strings: text equality. Two operands that both look like time literals are
+// compared as instants by the folder but as text by the evaluator (finding F-C09-1);
+// the first clause excludes that case, the second one states the property as given.
+//@ func reduceBinaryExprStringLHS
+//@   props C09
+//@   requires lhs != nil && rhs != nil
+//@   entrylet ev = call("(*ValuerEval).evalBinaryExpr", mkobj(ValuerEval, IntegerFloatDivision, true), mkobj(BinaryExpr, Op, op, LHS, lhs, RHS, rhs))
+//@   ensures !istype(result, *BinaryExpr) && spec_isStrLit(rhs) && (op == EQ || op == NEQ) && !(call("(*StringLiteral).IsTimeLiteral", lhs) && call("(*StringLiteral).IsTimeLiteral", rhs.(*StringLiteral))) ==> spec_litval(result) == ev
+//@   ensures !istype(result, *BinaryExpr) && spec_isStrLit(rhs) && (op == EQ || op == NEQ) ==> spec_litval(result) == ev
